@@ -13,5 +13,5 @@ def combs(ctx):
     gfi.cond_rule(ctx, "generate")
 
 
-RULES = [gfi.dist_generate, gfi.collision_helpers, gfi.address_glue, lambda ctx: gfi.density_reduction(ctx, ['Generate']), combs, pjaxr.first_leaf_guard]
+RULES = [gfi.dist_generate, gfi.collision_helpers, gfi.address_glue, lambda ctx: gfi.density_reduction(ctx, ['Generate']), pjaxr.logdensity_batch_terms, combs, pjaxr.first_leaf_guard]
 FLOOR = 7
